@@ -3,8 +3,10 @@
    Router/RouterGet.v (concurrent calls as an LTS over the lock-protected blocks),
    Router/Pump.v (generated forwarders), Router/NameDefault.v (default-name interceptor),
    Router/Table.v + Gen/Routers.v (descriptor methods vs checked-in routers, regenerated each run). *)
+From Coq Require Import Permutation.
 From SC Require Import Base.Prelude Router.Registry Router.RegistryProofs Router.RouterGet Router.RouterGetProofs
-  Router.Pump Router.PumpProofs Router.NameDefault Router.NameDefaultProofs Router.Table Router.TableProofs Gen.Routers
+  Router.RouterCb Router.RouterCbProofs Router.RegistryW Router.RegistryWProofs
+  Router.Pump Router.PumpProofs Router.NameDefault Router.NameDefaultProofs Router.NameTree Router.NameTreeProofs Router.Table Router.TableProofs Gen.Routers
   Router.Route Router.C12Judge Router.C12JudgeProofs.
 
 (* The registry is a map: for every operation sequence (Add/Remove/Has/Get with fallback and
@@ -81,6 +83,137 @@ Theorem C12_concurrent_notfound_touches_nothing : forall g n ths s0 sched,
 Proof. intros g n ths s0 sched H1 H2 H3 H4. exact (concurrent_notfound_touches_nothing g n ths s0 H1 H2 H3 H4 sched). Qed.
 Print Assumptions C12_concurrent_notfound_touches_nothing.
 
+(* ---- callbacks run outside the lock (Router/RouterCb.v: the delivery of a callback is a step of
+   its own, so other calls' blocks and callbacks can come between a commit and its report) ---- *)
+
+(* "change callbacks report exactly the transitions", as a multiset, under EVERY schedule of any
+   Get/Add/Remove threads on any names, at every moment: the transition log (commit order) is a
+   permutation of the callbacks delivered so far plus the changes committed but not yet reported;
+   once every call has returned, of the callbacks alone *)
+Theorem C12_callbacks_are_transitions : forall g ths s0 sched,
+  let G := cgrun g ths sched (cginit s0 ths) in
+  Permutation (slog (cst G)) (ccbs G ++ pending (cpcs G)) /\
+  (call_done G = true -> Permutation (slog (cst G)) (ccbs G)).
+Proof. exact callbacks_are_transitions. Qed.
+Print Assumptions C12_callbacks_are_transitions.
+
+(* erasing the callback steps of any run gives a run of RouterGet.v's LTS (same registry, same
+   results): the theorems above about concurrent Gets hold with callbacks outside the lock *)
+Theorem C12_cb_run_erases : forall g ths s0 sched, exists sched',
+  let G := cgrun g ths sched (cginit s0 ths) in
+  let H := grun g ths sched' (ginit s0 ths) in
+  gst H = cst G /\ gpcs H = map erase_pc (cpcs G).
+Proof.
+  intros g ths s0 sched. destruct (cb_run_erases g ths sched (cginit s0 ths)) as [sched' [H _]].
+  exists sched'. rewrite erased_init in H. cbn zeta. rewrite <- H. split; reflexivity.
+Qed.
+Print Assumptions C12_cb_run_erases.
+
+(* concurrent first Gets of one name with callbacks outside the lock, every schedule: single
+   commit, everybody gets it, and (Gets alone) the callbacks are the transitions IN ORDER *)
+Theorem C12_cb_single_factory_commit : forall g n ths s0 sched,
+  (forall k, In k ths -> k = TGet n) -> find n (sreg s0) = None -> invoke_fb g n = None ->
+  mem_str n (fac_ok g) = true ->
+  let G := cgrun g ths sched (cginit s0 ths) in
+  let commit := find n (sreg (cst G)) in
+  slog (cst G) = slog s0 ++ auto_entry n commit /\
+  (forall k, String.eqb k n = false -> find k (sreg (cst G)) = find k (sreg s0)) /\
+  (forall i r, nth_error (cpcs G) i = Some (CDone r) -> exists c, commit = Some c /\ r = RGet (Got c)) /\
+  (call_done G = true -> ccbs G = slog (cst G)).
+Proof. intros g n ths s0 sched H1 H2 H3 H4. exact (cb_single_factory_commit g n ths s0 sched H1 H2 H3 H4). Qed.
+Print Assumptions C12_cb_single_factory_commit.
+
+(* The property fixes WHICH transitions are reported, not the order in which the callbacks of
+   concurrent committers arrive.  Recorded as facts about the model (observations, not violations):
+   two overlapping Adds of one name can report in the opposite order of their commits; every call
+   has returned, and a consumer replaying the callbacks holds client 1 while the registry holds
+   client 2 (same on the code, by parking the harness's onChange on entry) *)
+Theorem C12_callback_order_not_guaranteed_add_add :
+  exists g ths sched,
+    let G := cgrun g ths sched (cginit (init 1000) ths) in
+    call_done G = true /\ ccbs G <> slog (cst G) /\
+    replay (ccbs G) "n"%string = Some 1 /\ find "n"%string (sreg (cst G)) = Some 2.
+Proof. exact cb_order_not_guaranteed_add_add. Qed.
+Print Assumptions C12_callback_order_not_guaranteed_add_add.
+
+Theorem C12_callback_order_not_guaranteed_add_remove :
+  exists g ths sched,
+    let G := cgrun g ths sched (cginit (init 1000) ths) in
+    call_done G = true /\ replay (ccbs G) "n"%string = Some 1 /\ find "n"%string (sreg (cst G)) = None.
+Proof. exact cb_order_not_guaranteed_add_remove. Qed.
+Print Assumptions C12_callback_order_not_guaranteed_add_remove.
+
+Theorem C12_callback_order_not_guaranteed_get_remove :
+  exists g ths sched,
+    let G := cgrun g ths sched (cginit (init 1000) ths) in
+    call_done G = true /\ replay (ccbs G) "n"%string = Some 1000 /\ find "n"%string (sreg (cst G)) = None.
+Proof. exact cb_order_not_guaranteed_get_remove. Qed.
+Print Assumptions C12_callback_order_not_guaranteed_get_remove.
+
+(* the judge's computable multiset comparison is sound *)
+Theorem C12_perm_eqb_sound : forall a b, perm_eqb a b = true -> Permutation a b.
+Proof. exact perm_eqb_sound. Qed.
+Print Assumptions C12_perm_eqb_sound.
+
+(* ---- per-call fallback/factory outcomes and option subsets (Router/RegistryW.v) ---- *)
+
+(* for every operation sequence on a router built from ANY subset of WithFallback / WithFactory /
+   WithOnChange, where every Get has its own fallback and factory outcome (nil,nil / nil,err /
+   client+err / client,nil -- a factory may fail now and succeed later, or hand out a client that
+   is registered elsewhere): results, numbers of fallback/factory calls, final contents and change
+   log are those of a plain functional map *)
+Theorem C12_registryW_is_map : forall o ops,
+  snd (wrun o (init 1) ops) = snd (prunW o (mkP pempty [] 1) ops) /\
+  (forall k, find k (sreg (fst (wrun o (init 1) ops))) = pm (fst (prunW o (mkP pempty [] 1) ops)) k) /\
+  slog (fst (wrun o (init 1) ops)) = plog (fst (prunW o (mkP pempty [] 1) ops)).
+Proof.
+  intros o ops. assert (H0 : RW (init 1) (mkP pempty [] 1)) by (split; auto).
+  destruct (registryW_is_map o ops _ _ H0) as [H1 [H2 H3]]. auto.
+Qed.
+Print Assumptions C12_registryW_is_map.
+
+(* registry first, then the fallback, then the factory; only a factory client is remembered, under
+   the name asked for, with one Auto change; NotFound changes nothing *)
+Theorem C12_getW_cases : forall o n fbo fao s,
+  match find n (sreg s), (if w_fb o then yields fbo else None), (if w_fac o then yields fao else None) with
+  | Some c, _, _ => getW o n fbo fao s = (s, WR (RGet (Got c)) 0 0)
+  | None, Some c, _ => getW o n fbo fao s = (s, WR (RGet (Got c)) (if w_fb o then 1 else 0) 0)
+  | None, None, Some c =>
+      getW o n fbo fao s = (mkState (set n c (sreg s)) (slog s ++ [mkChange n nil_client c true]) (snext s),
+                            WR (RGet (Got c)) (if w_fb o then 1 else 0) (if w_fac o then 1 else 0))
+  | None, None, None => getW o n fbo fao s = (s, WR (RGet (NotFound n)) (if w_fb o then 1 else 0) (if w_fac o then 1 else 0))
+  end.
+Proof. exact getW_cases. Qed.
+Print Assumptions C12_getW_cases.
+
+Theorem C12_getW_call_counts : forall o n fbo fao s s' r k1 k2, getW o n fbo fao s = (s', WR r k1 k2) ->
+  (k1 = 0 \/ k1 = 1) /\ (k2 = 0 \/ k2 = 1) /\
+  (k1 = 1 -> w_fb o = true /\ find n (sreg s) = None) /\
+  (k2 = 1 -> w_fac o = true /\ find n (sreg s) = None /\ (if w_fb o then yields fbo else None) = None).
+Proof. exact getW_call_counts. Qed.
+Print Assumptions C12_getW_call_counts.
+
+(* Registry.v's Get (used by all theorems above) is the instance with the configuration's outcomes *)
+Theorem C12_get_is_getW : forall g n s, 0 < snext s ->
+  let '(s1, r1) := get g n s in
+  let '(s2, WR r2 _ _) := getW (mkW true true true) n (fb_out g n) (fac_out g n s) s in
+  sreg s1 = sreg s2 /\ slog s1 = slog s2 /\ RGet r1 = r2.
+Proof. exact get_is_getW. Qed.
+Print Assumptions C12_get_is_getW.
+
+(* the judge on these cases: agreement with the model implies the property predicate
+   (for KHist/KSched the predicate is proved of the model's own output: C12_judge_sound) *)
+Theorem C12_judge_agrees_ok_partial : forall c,
+  match c with KRegW _ _ _ _ | KDefault _ _ _ | KDefaultStream _ _ _ _ => True | _ => False end ->
+  agrees c = true -> C12_ok c = true.
+Proof.
+  intros c Hc. destruct c; try contradiction.
+  - apply judge_agrees_ok_regw.
+  - apply judge_agrees_ok_default.
+  - apply judge_agrees_ok_default_stream.
+Qed.
+Print Assumptions C12_judge_agrees_ok_partial.
+
 (* the stream pump is transparent: for every child script (k messages, header, trailer, error at
    any position, failure to open) the caller's transcript is the child's *)
 Theorem C12_pump_transparent : forall c, hdr_err c = None -> pump c cooperative = direct c.
@@ -134,6 +267,60 @@ Proof.
   split; [apply replace_in_keeps_fields|apply is_empty_name_spec].
 Qed.
 Print Assumptions C12_default_name_only_name_field.
+
+(* ---- the default-name interceptor over message TREES (Router/NameTree.v): requests whose fields
+   may be messages with their own types and their own "name" fields, lists, scalars ---- *)
+
+(* fills in only an empty ROOT name: the i-th field of the root afterwards is the i-th field before,
+   except that the singular string field called "name" of the root's type, when "", holds the default *)
+Theorem C12_default_name_tree : forall d t fs i p, nth_error fs i = Some p ->
+  nth_error (tfields_of (replace_tree d (MT t fs))) i = Some (if is_empty_name_t t p then (fst p, VStr d) else p) /\
+  (forall n v, p = (n, v) ->
+     (is_empty_name_t t p = true <-> exists f, name_field t = Some f /\ fk f = FString /\ n = fnum f /\ v = VStr "")).
+Proof.
+  intros d t fs i p H. split; [exact (replace_tree_fields d t fs i p H)|].
+  intros n v ->. apply is_empty_name_t_spec.
+Qed.
+Print Assumptions C12_default_name_tree.
+
+(* a nested message is never touched, whatever its own name field holds; neither is any repeated
+   field, scalar (int32/bytes name) or non-empty string; type and field order are kept *)
+Theorem C12_default_name_nested_untouched : forall d t fs i n v, nth_error fs i = Some (n, v) ->
+  (forall s, v = VStr s -> s <> ""%string) ->
+  nth_error (tfields_of (replace_tree d (MT t fs))) i = Some (n, v).
+Proof. exact replace_tree_nested_untouched. Qed.
+Print Assumptions C12_default_name_nested_untouched.
+
+Theorem C12_default_name_tree_shape : forall d m,
+  ttype_of (replace_tree d m) = ttype_of m /\ map fst (tfields_of (replace_tree d m)) = map fst (tfields_of m).
+Proof. exact replace_tree_shape. Qed.
+Print Assumptions C12_default_name_tree_shape.
+
+(* no name field, or a name that is not a singular string: the request is returned as it came *)
+Theorem C12_default_name_no_string_name : forall d t fs,
+  (match name_field t with Some f => fk f <> FString | None => True end) -> replace_tree d (MT t fs) = MT t fs.
+Proof. exact replace_tree_no_string_name. Qed.
+Print Assumptions C12_default_name_no_string_name.
+
+Theorem C12_default_name_idempotent : forall d m, replace_tree d (replace_tree d m) = replace_tree d m.
+Proof. exact replace_tree_idempotent. Qed.
+Print Assumptions C12_default_name_idempotent.
+
+(* the field-level model the correspondence runs (NameDefault.replace_in on rendered fields) is the
+   image of the tree model under any rendering that renders a string as itself *)
+Theorem C12_default_name_tree_renders : forall (rend : fval -> string) d t fs,
+  (forall s, rend (VStr s) = s) -> well_typed_name t fs ->
+  map (fun p => (fst p, rend (snd p))) (tfields_of (replace_tree d (MT t fs))) =
+  replace_in t (map (fun p => (fst p, rend (snd p))) fs) d.
+Proof. exact replace_tree_renders_to_replace_in. Qed.
+Print Assumptions C12_default_name_tree_renders.
+
+Example C12_nonvacuous_default_tree :
+  let inner := mkT "vendor.Inner" [mkF 1 "name" FString] in
+  let outer := mkT "vendor.Outer" [mkF 1 "name" FString; mkF 2 "child" FOther; mkF 3 "title" FString] in
+  replace_tree "dev" (MT outer [(1, VStr ""); (2, VMsg (Some (MT inner [(1, VStr "")]))); (3, VStr "")])
+  = MT outer [(1, VStr "dev"); (2, VMsg (Some (MT inner [(1, VStr "")]))); (3, VStr "")].
+Proof. vm_compute. reflexivity. Qed.
 
 (* the stream interceptor works per message: for every sequence of messages received on one
    wrapped stream (client-streaming / bidi), each successfully received message -- the first and
